@@ -495,6 +495,18 @@ impl<'a> Gen<'a> {
                             f.push(Field { name: self.name(), d, rel: Rel::None });
                         }
                     }
+                    // now and then the sized target is skippable as well: a flag ahead of the announcement may take it out
+                    // (nothing is then emitted or consumed for it, whatever size was announced)
+                    if self.r.chance(1, 4) {
+                        let trig = self.r.below(3) as u32;
+                        let val = if self.r.chance(1, 2) { trig } else { trig + 1 };
+                        let flag = match self.r.below(3) {
+                            0 => D::U8(val as u8),
+                            1 => D::U16(val as u16, true),
+                            _ => D::U32(val, true),
+                        };
+                        f.push(Field { name: self.name(), d: flag, rel: Rel::SkipIf(tname.clone(), trig) });
+                    }
                     let sz = self.int_holding(size(&target));
                     f.push(Field { name: self.name(), d: sz, rel: Rel::SizeOf(tname.clone()) });
                     if self.r.chance(1, 3) {
